@@ -36,9 +36,13 @@ RNS_ASSUME = [
 ]
 
 def notif_runs(tier, seed):
+    # the rns profile rides along: who a name-addressed notification (or block) reaches is decided by rns.Resolve,
+    # which the notifications model takes from the chain; Resolve itself is modelled and compared in the rns profile
     if tier == "quick":
-        return [{"profile": "notif", "args": ["notif", "-seed", str(seed * 10 + k), "-hist", "6", "-steps", "300"]} for k in range(2)]
-    return [{"profile": "notif", "args": ["notif", "-seed", str(seed * 100 + k), "-hist", "12", "-steps", "600"]} for k in range(16)]
+        return [{"profile": "notif", "args": ["notif", "-seed", str(seed * 10 + k), "-hist", "6", "-steps", "300"]} for k in range(2)] + \
+               [{"profile": "rns", "args": ["rns", "-seed", str(seed * 10 + 7), "-hist", "4", "-steps", "300"]}]
+    return [{"profile": "notif", "args": ["notif", "-seed", str(seed * 100 + k), "-hist", "12", "-steps", "600"]} for k in range(16)] + \
+           [{"profile": "rns", "args": ["rns", "-seed", str(seed * 100 + 90 + k), "-hist", "8", "-steps", "500"]} for k in range(3)]
 
 
 def mint_runs(tier, seed):
@@ -190,7 +194,7 @@ ST_ASSUME = ["module accounts never sign; signers are canonical bech32 addresses
              "block time is non-decreasing; third-party bank transfers into gauge or escrow accounts are outside the quantifier"]
 
 
-def st(fields=None, ops=None, opfields=None, queries=None):
+def st(fields=None, ops=None, opfields=None, queries=None, wasm=False):
     """relevance filter over driver DIFF lines of the storage model; `queries`: the query-server
     answers (mod "query", op "storage.<query>") the property's statement speaks about"""
     fields = set(fields or [])
@@ -201,6 +205,10 @@ def st(fields=None, ops=None, opfields=None, queries=None):
     def rel(d):
         if d["mod"] == "query":
             return d["op"] in queries
+        if d["mod"] == "wasm":
+            # the contract route into the storage message server (wasmbinding.PerformPostFile): it must behave like the
+            # same MsgPostFile delivered directly, signed by the contract
+            return wasm
         if d["mod"] == "panic":
             # a panicking Begin/EndBlock ends the history: for a property that constrains block
             # transitions the correspondence (the model predicts no panic) no longer checks
@@ -226,10 +234,12 @@ STORAGE_PROPS = {
                 rel=st(fields=["verify", "challenge"], ops=["postProof"], opfields={"block": ["files", "files2", "proofs", "providers"]})),
     "C03": dict(main="proofs", monitor=mon_storage.C03, stateful=True, facts=facts.gen_pure_fns,
                 rel=st(opfields={"block": ["files", "files2", "proofs", "providers", "bank", "panic"]})),
-    "C04": dict(main="payments", extra=("rns",), monitor=mon_storage.c04, facts=facts.gen_pure_fns,
-                rel=st(ops=["buyStorage", "setParams"], opfields={"postFile": ["bank", "gauges", "outcome"]}, queries=["rns.resolve", "priceCheck"])),
-    "C05": dict(main="storage", extra=("payments", "forms", "mint", "rns", "notif", "filetree"), monitor=mon_storage.c05, panic=True,
-                rel=st(fields=["panic"], ops=["block"], opfields={"postFile": ["outcome", "files"]})),
+    "C04": dict(main="payments", extra=("rns", "msgs"), monitor=mon_storage.c04, facts=facts.gen_pure_fns,
+                rel=st(ops=["buyStorage", "setParams"], opfields={"postFile": ["bank", "gauges", "outcome"]}, queries=["rns.resolve", "priceCheck"], wasm=True)),
+    "C05": dict(main="storage", extra=("payments", "forms", "mint", "rns", "notif", "filetree", "msgs"), monitor=mon_storage.c05, panic=True,
+                # wasm: C05_history_never_panics_unconditional assumes that no message is signed by an escrow account; for
+                # contract-originated posts that is what the binding's creator check provides
+                rel=st(fields=["panic"], ops=["block"], opfields={"postFile": ["outcome", "files"]}, wasm=True)),
     "C07": dict(main="plans", monitor=mon_storage.c07,
                 rel=st(fields=["payinfo"], ops=["postFile", "deleteFile"], opfields={"buyStorage": ["outcome"], "block": ["files", "files2"]},
                        queries=["payInfo", "allPayInfo", "payData", "clientFreeSpace", "fileUploadCheck", "storageStats", "networkSize"])),
